@@ -92,6 +92,22 @@ func c13ScriptCheck(c c13Script) (fs []rep.Finding) {
 	if s2, err := bscript.NewFromHexString(s.String()); err != nil || !bytes.Equal(*s2, raw) {
 		fs = append(fs, rep.F("hex|roundtrip", fmt.Sprintf("hex rendering does not convert back (%v)", err)))
 	}
+	// a rendering obtained from the script's own MarshalJSON is the caller's: it is kept (not copied)
+	// while other scripts are rendered, and must still read as this script's hex afterwards
+	if held, err := s.MarshalJSON(); err == nil {
+		wantJSON := `"` + hex.EncodeToString(raw) + `"`
+		for k := 0; k < 6; k++ {
+			o := bscript.NewFromBytes(c13Decoy(raw, byte(0x11*(k+1))))
+			if ob, err := o.MarshalJSON(); err == nil && k%2 == 0 {
+				for i := range ob {
+					ob[i] = 'e'
+				}
+			}
+		}
+		if string(held) != wantJSON {
+			fs = append(fs, rep.F("json|kept-rendering-changed", "the bytes MarshalJSON returned changed while other scripts were rendered"))
+		}
+	}
 	jb, err := json.Marshal(s)
 	if err != nil {
 		fs = append(fs, rep.F("json|marshal-error", err.Error()))
@@ -167,6 +183,18 @@ func c13ScriptCheck(c c13Script) (fs []rep.Finding) {
 	p := &interpreter.DefaultOpcodeParser{}
 	ps, perr := p.Parse(s)
 	if perr == nil {
+		// a parsed script is the caller's: other scripts of the same shape (push data differing),
+		// and two P2PKH scripts, are parsed - by the same parser object and by another one - before
+		// the first result is unparsed
+		for k, d := range [][]byte{c13Decoy(raw, 0x11), refP2PKH(fill(20, 0x22)), c13Decoy(raw, 0xee), refP2PKH(fill(20, 0x33))} {
+			q := p
+			if k >= 2 {
+				q = &interpreter.DefaultOpcodeParser{}
+			}
+			if pd, err := q.Parse(bscript.NewFromBytes(d)); err == nil && k == 0 {
+				_, _ = q.Unparse(pd)
+			}
+		}
 		up, uerr := p.Unparse(ps)
 		if uerr != nil {
 			fs = append(fs, rep.F("Unparse|error", uerr.Error()))
@@ -251,6 +279,21 @@ func c13ScriptCheck(c c13Script) (fs []rep.Finding) {
 		fs = append(fs, rep.F("mutated-script", "a codec changed the caller's script bytes"))
 	}
 	return
+}
+
+// c13Decoy is a script of the same shape as b: every opcode and push header as in b, the data of
+// every push XORed with x (b itself where it is not well-formed).
+func c13Decoy(b []byte, x byte) []byte {
+	d := append([]byte(nil), b...)
+	toks, _ := refTokenize(b)
+	for _, t := range toks {
+		if t.Push {
+			for i := t.End - len(t.Data); i < t.End; i++ {
+				d[i] ^= x
+			}
+		}
+	}
+	return d
 }
 
 type c13Parts struct {
@@ -469,7 +512,7 @@ func c13PrefixCheck(c c13Prefix) (fs []rep.Finding) {
 
 func init() {
 	p := register(&Prop{ID: "C13", Level: "exploration",
-		Rule: "exhaustive: (scripts) every byte string of length<=2 plus length 3 over a 68-symbol alphabet (quick) / every byte string of length<=3 (thorough), every string of length 4 (thorough: 5) over a 14-symbol control-flow / OP_RETURN / push-header alphabet, and every truncation at every position of 40 longer well-formed scripts, through DecodeParts, Parse/Unparse (unparsed twice by the same parser object with the first result modified in between, and once more after the parsed opcodes were replaced in place), hex and JSON against the reference tokenizer; (parts) every list of <=3 items with lengths in {1,2,75,76,255,256,65535,65536} x 3 fill patterns through EncodeParts/PushDataPrefix/DecodeParts/AppendPushDataArray/Parse; (prefix) for every length 1..80, 254..257, 65535, 65536: the data appended to the prefix PushDataPrefix returned, then every prefix and encoding of those lengths checked again; (asm) every sequence (the empty one included) of length<=2 (quick) / <=3 (thorough) over {all 178 non-push opcode bytes, minimal pushes of 2,3,75,76,255,256 bytes, 8 pushes whose hex reads as a decimal number} that is not a data script through ToASM/NewFromASM. distinct_nontrivial = distinct (token count, well-formedness, has-return) classes x length for scripts + distinct part-length vectors + distinct asm strings",
+		Rule: "exhaustive: (scripts) every byte string of length<=2 plus length 3 over a 68-symbol alphabet (quick) / every byte string of length<=3 (thorough), every string of length 4 (thorough: 5) over a 14-symbol control-flow / OP_RETURN / push-header alphabet, and every truncation at every position of 40 longer well-formed scripts, through DecodeParts, Parse/Unparse (other scripts of the same shape and P2PKH scripts parsed between Parse and Unparse; unparsed twice by the same parser object with the first result modified in between, and once more after the parsed opcodes were replaced in place), hex and JSON (a rendering returned by MarshalJSON kept while six other scripts are rendered) against the reference tokenizer; (parts) every list of <=3 items with lengths in {1,2,75,76,255,256,65535,65536} x 3 fill patterns through EncodeParts/PushDataPrefix/DecodeParts/AppendPushDataArray/Parse; (prefix) for every length 1..80, 254..257, 65535, 65536: the data appended to the prefix PushDataPrefix returned, then every prefix and encoding of those lengths checked again; (asm) every sequence (the empty one included) of length<=2 (quick) / <=3 (thorough) over {all 178 non-push opcode bytes, minimal pushes of 2,3,75,76,255,256 bytes, 8 pushes whose hex reads as a decimal number} that is not a data script through ToASM/NewFromASM. distinct_nontrivial = distinct (token count, well-formedness, has-return) classes x length for scripts + distinct part-length vectors + distinct asm strings",
 	})
 	sS := NewSpace(p, "scripts", c13ScriptCheck)
 	sP := NewSpace(p, "parts", c13PartsCheck)
